@@ -93,3 +93,98 @@ func vC07Flush(reuse bool) {
 
 func VerifC07_Flush()      { vC07Flush(false) }
 func VerifC07_FlushReuse() { vC07Flush(true) }
+
+// Two flushes of one tag around a reuse: A (tag t) is flushed and acknowledged,
+// B reuses t, A's handler (which ignored the cancellation) may complete late at
+// an explored moment, then t is flushed again.  The second flush must cancel B
+// and be acknowledged, and B must never be answered afterwards; without the
+// reuse the second flush names a tag that is not outstanding and still gets
+// exactly one reply.
+func VerifC07_FlushTwice() {
+	s := newVSrv(2)
+	t := Tag(ndU16("tagA"))
+	f1, f2 := Tag(ndU16("tagF1")), Tag(ndU16("tagF2"))
+	vAssume(vAnd(f1 != t, f2 != t))
+	payA, payB := ndU32("payA"), ndU32("payB")
+	vAssume(payA != payB)
+	s.h.honour[0] = ndChoice("honourA", 2) == 1
+	lateA := !s.h.honour[0] && ndChoice("lateA", 2) == 1
+	reuse := ndChoice("reuse", 2) == 1
+	s.ch.fromPeer <- vReqKind(ndChoice("kindA", vNReqKinds), 0, t, ndU64("markA"))
+	<-s.h.started
+	s.ch.fromPeer <- &Fcall{Type: Tflush, Tag: f1, Message: MessageTflush{Oldtag: t}}
+	r := <-s.ch.toPeer
+	vAssert(r.Tag == f1 && r.Type == Rflush, "C07: flush of an outstanding request is acknowledged with Rflush")
+	if reuse {
+		s.ch.fromPeer <- vReq(1, t, ndU64("markB"))
+		<-s.h.started
+	}
+	if lateA {
+		s.h.release[0] <- vResFor(0, payA, "")
+		vDrain()
+	}
+	s.ch.fromPeer <- &Fcall{Type: Tflush, Tag: f2, Message: MessageTflush{Oldtag: t}}
+	r = <-s.ch.toPeer
+	vAssert(r.Tag == f2, "C07: after a flush was acknowledged, the next frame for a second flush is its own reply (nothing for the flushed request)")
+	if reuse {
+		vAssert(r.Type == Rflush, "C07: a second flush of the reused tag is acknowledged with Rflush")
+		vAssert(s.h.ctxs[1].Err() != nil, "C07: the flushed request's handler context is cancelled no later than the acknowledgement")
+		vReach("c07.twice.reuse")
+	} else {
+		vAssert(r.Type == Rflush || r.Type == Rerror, "C07: a flush naming a tag that is not outstanding still receives a reply")
+		vReach("c07.twice.plain")
+	}
+	if !lateA && !s.h.honour[0] {
+		s.h.release[0] <- vResFor(0, payA, "")
+	}
+	s.vNoMoreReplies("C07: no reply to a flushed request is sent after the flush was acknowledged")
+}
+
+// A flushed request whose handler ignores the cancellation, followed by TWO
+// further requests that are both still outstanding when the flushed handler
+// finally returns: each of them receives its own reply and nothing else is sent
+// (B may reuse the freed tag).
+func VerifC07_FlushThenTwo() {
+	s := newVSrv(3)
+	t := Tag(ndU16("tagA"))
+	f := Tag(ndU16("tagF"))
+	tb, tc := Tag(ndU16("tagB")), Tag(ndU16("tagC"))
+	vAssume(vAnd(f != t, vAnd(tb != tc, vAnd(tb != f, tc != f))))
+	payA, payB, payC := ndU32("payA"), ndU32("payB"), ndU32("payC")
+	vAssume(vAnd(payA != payB, vAnd(payA != payC, payB != payC)))
+	s.h.honour[0] = false
+	s.ch.fromPeer <- vReqKind(ndChoice("kindA", vNReqKinds), 0, t, ndU64("markA"))
+	<-s.h.started
+	s.ch.fromPeer <- &Fcall{Type: Tflush, Tag: f, Message: MessageTflush{Oldtag: t}}
+	r := <-s.ch.toPeer
+	vAssert(r.Tag == f && r.Type == Rflush, "C07: flush of an outstanding request is acknowledged with Rflush")
+	s.ch.fromPeer <- vReq(1, tb, ndU64("markB"))
+	<-s.h.started
+	s.ch.fromPeer <- vReq(2, tc, ndU64("markC"))
+	<-s.h.started
+	// the flushed handler returns only now
+	s.h.release[0] <- vResFor(0, payA, "")
+	vDrain()
+	s.h.release[1] <- vResFor(0, payB, "")
+	s.h.release[2] <- vResFor(0, payC, "")
+	seenB, seenC := 0, 0
+	for i := 0; i < 2; i++ {
+		r := <-s.ch.toPeer
+		rw, ok := r.Message.(MessageRwrite)
+		vAssert(ok, "C07: later requests receive replies of their own kind")
+		if !ok {
+			continue
+		}
+		vAssert(rw.Count != payA, "C07: no reply to the flushed request is sent after the flush was acknowledged (its result reached another request)")
+		if r.Tag == tb && rw.Count == payB {
+			seenB++
+		} else if r.Tag == tc && rw.Count == payC {
+			seenC++
+		} else {
+			vFail("C07: a later request receives its own reply (tag and result)")
+		}
+	}
+	vAssert(seenB == 1 && seenC == 1, "C07: each later request is answered exactly once")
+	s.vNoMoreReplies("C07: no reply to a flushed request is sent after the flush was acknowledged")
+	vReach("c07.thentwo")
+}
